@@ -633,3 +633,22 @@ def _fill_regions(tree, acc, owner):
                 _default_descent(tree, s, acc)
                 changed = changed or len(acc) != before
     return acc
+
+
+def c13_short_chain_not_cut(case, obs, flavor):
+    """C13: "chains shorter than the bound run to their natural end".  Every step of a run starts from an idle
+    interpreter (queue drained), so the queue / raise-chain breaker may only fire in a step in which the machine sent
+    itself at least `maxIterations` events (sync: the drain budget counts the external event too; async: the counter
+    must EXCEED the bound).  `self_sends` counts the interpreter's own send() calls in the step, `chain_cuts` the
+    breaker's error logs (not the always-settling bound)."""
+    out = []
+    limit = case["machine"].get("maxIterations", 1000)
+    for i, o in enumerate(obs):
+        if i > 0 and obs[i - 1].get("qlen", 0):
+            continue        # a sync send() that raised left events queued: this step did not start from an empty queue
+        if o.get("chain_cuts") and o.get("self_sends", 1 << 30) < limit:
+            out.append({"kind": "short-chain-cut", "step": i, "at": None,
+                        "detail": f"the chain breaker fired ({o['chain_cuts']} time(s)) in a step in which the machine sent itself only "
+                                  f"{o['self_sends']} event(s); maxIterations={limit}",
+                        "self_sends": o["self_sends"], "limit": limit})
+    return out
